@@ -131,7 +131,7 @@ func TestC20Reputation(t *testing.T) {
 	ww.close()
 
 	runRapid(t, col, func(rt *rapid.T, h *ev.History) {
-		w := newNmWorld(1, h, "reputation")
+		w := newNmWorld(rapid.SampledFrom([]int{1, 1, 3}).Draw(rt, "n"), h, "reputation")
 		defer w.close()
 		rep := w.fs.H["reputation"]
 		var items []repItem
@@ -144,7 +144,7 @@ func TestC20Reputation(t *testing.T) {
 			withAlpha := rapid.IntRange(0, 7).Draw(rt, "noAlpha") != 0
 			signers := w.alpha
 			if !withAlpha {
-				signers = []neotest.Signer{w.nodes[0]}
+				signers = deficientSigners(rt, w.c, w.nodes[0])
 			}
 			o := w.c.Invoke(signers, rep, "put", e, p, v)
 			h.Op("put(%d, %x.., %s) alphabet=%v -> %s", e, p[:3], v, withAlpha, o)
@@ -388,7 +388,7 @@ func TestC20NeoFSID(t *testing.T) {
 		"rapid: NeoFSID addKey/removeKey over 3 owners (25-byte ids) and a pool of 5 keys, incl. re-adding, removing absent keys, wrong owner/key lengths and calls without the Alphabet; key(owner) compared with a set model after every step; non-trivial = a removal of a bound key followed by a read",
 	)
 	runRapid(t, col, func(rt *rapid.T, h *ev.History) {
-		w := newNmWorld(1, h, "neofsid")
+		w := newNmWorld(rapid.SampledFrom([]int{1, 1, 3}).Draw(rt, "n"), h, "neofsid")
 		defer w.close()
 		id := w.fs.H["neofsid"]
 		owners := [][]byte{ownerID(w.nodes[0].ScriptHash()), ownerID(w.nodes[1].ScriptHash()), ownerID(w.nodes[2].ScriptHash())}
@@ -411,7 +411,7 @@ func TestC20NeoFSID(t *testing.T) {
 			}
 			switch bad {
 			case "noAlpha":
-				signers = []neotest.Signer{w.nodes[0]}
+				signers = deficientSigners(rt, w.c, w.nodes[0])
 			case "shortOwner":
 				owner = owner[:24]
 			case "shortKey":
@@ -470,7 +470,7 @@ func TestC20Config(t *testing.T) {
 	keysPool := [][]byte{{}, []byte("a"), []byte("ab"), []byte("abc"), []byte("ContainerFee"), []byte("ContainerFeeX"), []byte("b")}
 	runRapid(t, col, func(rt *rapid.T, h *ev.History) {
 		main := rapid.Bool().Draw(rt, "mainChain")
-		w := newNmWorld(1, h, "netmap")
+		w := newNmWorld(rapid.SampledFrom([]int{1, 1, 3}).Draw(rt, "n"), h, "netmap")
 		defer w.close()
 		target := w.nm
 		model := map[string][]byte{}
@@ -489,7 +489,7 @@ func TestC20Config(t *testing.T) {
 			withAlpha := rapid.IntRange(0, 7).Draw(rt, "noAlpha") != 0
 			signers := w.alpha
 			if !withAlpha {
-				signers = []neotest.Signer{w.nodes[0]}
+				signers = deficientSigners(rt, w.c, w.nodes[0])
 			}
 			o := w.c.Invoke(signers, target, "setConfig", []byte(fmt.Sprintf("id-%d", s)), k, v)
 			h.Op("setConfig(%q,%q) alphabet=%v -> %s", k, v, withAlpha, o)
